@@ -35,9 +35,13 @@ LEVEL_NOTE = "Trusts get_frequency_response as the reference representation (C05
 
 class Mon:
     def __init__(self, rec):
+        from ..history import ResultHistory
+
         self.rec = rec
         self.case = None
         self.cfg_of = {}
+        self.hist = ResultHistory(rec, self.v, keep=6)
+        self.last = {}  # (id(bank), filt, width, threshold) -> (weakref, start bin, copy of the truncated response)
 
     def attach(self):
         from pydrobert.speech import filters as F
@@ -104,6 +108,21 @@ class Mon:
         if fr.shape != (W,) or not np.all(np.isfinite(fr)):
             self.v("%s.get_frequency_response(%d, %d) has shape %r / non-finite values" % (name, i, W, fr.shape), check="finite", **info)
             return
+        # a bank is a fixed set of filters: what earlier calls returned stays what it was, and asking again gives the same
+        for lab, arr in (("get_truncated_response", c.result[1]), ("get_frequency_response", fr), ("get_frequency_response(half=True)", hf)):
+            self.hist.observe(bank, arr, "%s.%s" % (name, lab), **info)
+        key = (id(bank), int(i), W, thr)
+        prev = self.last.get(key)
+        if prev is not None and prev[0]() is bank:
+            self.rec.count("repeated_calls_same_arguments")
+            if prev[1] != b or prev[2].shape != tr.shape or not np.array_equal(prev[2], tr):
+                self.v("%s.get_truncated_response(%d, %d) returned something else than the first time" % (name, i, W), check="repeat", **info)
+        else:
+            import weakref
+
+            self.last[key] = (weakref.ref(bank), b, np.array(tr, copy=True))
+            if len(self.last) > 4000:
+                self.last.clear()
         d = np.abs(full - fr)
         compact = name in ("TriangularOverlappingFilterBank", "Fbank")
         if compact:
@@ -174,6 +193,12 @@ def _run_case(case, rec, mon=None):
                         bank.get_truncated_response(i, W)
                     except Exception:
                         pass
+            # the first widths again, after everything else has been asked
+            for W in Ws[:6]:
+                try:
+                    bank.get_truncated_response(0, W)
+                except Exception:
+                    pass
             rec.sample({"cfg": cfg, "widths": Ws})
     if len(mon.cfg_of) > 200:
         mon.cfg_of.clear()
